@@ -197,6 +197,23 @@ class GraphGhost(Obj):
     def m_evaluation_time(self, I, args, n):
         return self.get(I.ctx, "T")
 
+    # observers of the graph's schedule (graph.cpp): the cache is a lower bound of every pending slot (C02 cache_le); a raw
+    # slot is the node's pending time when it has one, otherwise a consumed time (<= T) or MIN_DT
+    def m_next_scheduled_time(self, I, args, n):
+        ctx = I.ctx
+        c = ctx.fresh("graph_next_scheduled_time")
+        eff = self.get(ctx, "eff")
+        ctx.assume(z3.ForAll([qk], z3.Implies(z3.And(qk >= 0, qk < self.get(ctx, "n")), c <= eff[qk])))
+        return c
+
+    def m_node_scheduled_time(self, I, args, n):
+        ctx = I.ctx
+        i = ctx.rv(args[0])
+        s = ctx.fresh("raw_slot")
+        eff, T = self.get(ctx, "eff"), self.get(ctx, "T")
+        ctx.assume(z3.If(eff[i] <= MAX_DT, s == eff[i], z3.And(s >= 0, s <= T)))
+        return s
+
     def m_schedule_node(self, I, args, n):
         ctx = I.ctx
         i, w = ctx.rv(args[0]), ctx.rv(args[1])
@@ -362,7 +379,8 @@ class NodeEvaluateImpl(NodeKernel):
         # C18 / C02: scheduler tail
         ev1 = self.ev.mem(ctx)
         eff1 = self.G.get(ctx, "eff")
-        ctx.oblige("ensures.scheduler-tail:armed-after-every-evaluation[C18 Armed; C02 node scheduler re-arms the slot; "
+        ctx.oblige("ensures.scheduler-tail:armed-after-every-evaluation[C18 Armed; C02 node scheduler re-arms the slot; C03 a requested "
+                   "wake-up still becomes due after an input-driven evaluation; "
                    "C15 also after a captured failure]",
                    z3.Implies(z3.And(started, self.has_scheduler),
                               z3.ForAll([qt, qg], z3.Implies(z3.And(sel2(ev1, qt, qg), qt < MAX_DT, qt > self.T),
